@@ -228,7 +228,11 @@ def match_finding(findings, prop, sig):
         ok = True
         for k, v in f["match"].items():
             sv = sig.get(k)
-            if k.endswith("_prefix"):                      # e.g. why_prefix: the value must start with it
+            if k.endswith("_contains"):                    # e.g. par_contains: the value must contain one of them
+                sv = sig.get(k[:-9]) or ""
+                if not any(x in sv for x in (v if isinstance(v, list) else [v])):
+                    ok = False
+            elif k.endswith("_prefix"):                      # e.g. why_prefix: the value must start with it
                 sv = sig.get(k[:-7]) or ""
                 if not any(sv.startswith(x) for x in (v if isinstance(v, list) else [v])):
                     ok = False
